@@ -21,7 +21,7 @@ Proof. exact escape_char_roundtrip_all. Qed.
 
 Example C30_nonvacuous :
   esc_char (fun _ => true) 128512 = [92; 117; 100; 56; 51; 100; 92; 117; 100; 101; 48; 48] /\
-  lex_string_literal (escape (fun c => N.eqb c 233) [34; 233; 128512; 10]) = SOk [34; 233; 128512; 10] 14.
+  lex_string_literal (escape (fun c => N.eqb c 233) [34; 233; 128512; 10]) = SOk [34; 233; 128512; 10] 13.
 Proof. split; vm_compute; reflexivity. Qed.
 
 Print Assumptions C30_hex4_roundtrip.
